@@ -206,12 +206,14 @@ def check_process_interrupt(sc, out, facts, d) -> list:
             elif e[0] == 'qput' and e[3] in ('result', 'exc'):
                 alive.pop(e[2], None)      # its task is over; only the process exit is left
         gap = sigs[1][1][3] - sigs[0][1][3]      # main-thread labtech lines executed between the two interrupts
+        # the handler of the first interrupt is armed for a second one once it has reached runner.cancel()
+        armed = any(e[0] == 'cancel' for e in out.events[first:second])
         for w in alive:
             f = fate.get(w)
             if f is None or f[1] > left:
                 vs.append(O.V('C14', 'not-terminated', f'worker {w} was still executing at the second interrupt and is still alive when '
                               f'run_tasks raises (second interrupt landed while main was {sigs[1][1][2]}, {gap} main-thread line(s) '
-                              f'after the first)', backend='process', second_before_handler_armed=(gap <= 2),
+                              f'after the first; first handler {"had" if armed else "had not yet"} reached runner.cancel())', backend='process', second_before_handler_armed=(not armed),
                               child_took_signal=any(e[0] == 'sigint-child' for e in out.events), start_method=backend))
                 break
     vs += cache_consistency('C14', sc, d, backend='process')
